@@ -197,25 +197,62 @@ def _revert_facts(ctx, rule):
     return f, cfg, subset, full_guard
 
 
+def _fork_aliases(f, cfg):
+    """names the snapshot goes by in State.revert: `self._last_fork` and locals bound to it (`x = self._last_fork`, also inside a tuple
+    assignment, possibly as `self._last_fork or {}`); plus the CFG nodes that clear `self._last_fork` (assignment of None, also in a tuple)."""
+    names = {"self._last_fork"}
+    clears = []
+
+    def src_is_fork(v):
+        return U(v) == "self._last_fork" or (isinstance(v, ast.BoolOp) and isinstance(v.op, ast.Or) and U(v.values[0]) == "self._last_fork")
+    for n, st in cfg.stmt.items():
+        if not isinstance(st, ast.Assign):
+            continue
+        pairs = []
+        t, v = st.targets[0], st.value
+        if isinstance(t, ast.Tuple) and isinstance(v, ast.Tuple) and len(t.elts) == len(v.elts):
+            pairs = list(zip(t.elts, v.elts))
+        else:
+            pairs = [(t, v)]
+        for a, b in pairs:
+            if isinstance(a, ast.Name) and src_is_fork(b):
+                names.add(a.id)
+            if U(a) == "self._last_fork" and U(b) == "None":
+                clears.append(n)
+    return names, clears
+
+
 def r3_revert_structure(ctx, rid="C02.R3", title="structure of State.revert (full and partial branch)"):
     ctx.rule(rid, title, 4)
     f, cfg, subset, (gh, glab) = _revert_facts(ctx, rid)
+    FORK, CLEARS = _fork_aliases(f, cfg)
+    # a snapshot taken out of the object before anything else ("consumed first") is cleared on every path
+    consumed_first = any(cfg.dominates(c, gh) for c in CLEARS)
     ifst = cfg.stmt[gh]
     full_body = ifst.body if glab else ifst.orelse
     # full branch
     upd = [s for s in full_body if isinstance(s, ast.Expr) and isinstance(s.value, ast.Call) and U(s.value.func) == "self._values.update"
-           and s.value.args and U(s.value.args[0]) == "self._last_fork"]
+           and s.value.args and U(s.value.args[0]) in FORK]
     clr = [s for s in full_body if isinstance(s, ast.Assign) and U(s.targets[0]) == "self._last_fork" and U(s.value) == "None"]
     ctx.check(bool(upd), rid, f, upd[0] if upd else ifst, "full revert restores every snapshotted entry",
               "full revert does not restore the whole snapshot (`self._values.update(self._last_fork)`)")
-    ctx.check(bool(clr) and bool(upd) and full_body.index(clr[0]) > full_body.index(upd[0]), rid, f, clr[0] if clr else ifst,
+    ctx.check((bool(clr) and bool(upd) and full_body.index(clr[0]) > full_body.index(upd[0])) or (consumed_first and bool(upd)), rid, f, clr[0] if clr else ifst,
               "snapshot cleared after the restore", "snapshot is not cleared after the full restore (a second revert would resurrect stale values)")
     # no-fork guard
     rs = [n for n in cfg.nodes(lambda s: isinstance(s, ast.Raise))]
-    ok_guard = any(any(U(cfg.stmt[h].test) == "self._last_fork is None" and lab for h, lab in cfg.if_guards(r)) for r in rs)
+    ok_guard = any(any((U(cfg.stmt[h].test) in {f"{x} is None" for x in FORK} and lab) or (U(cfg.stmt[h].test) in {f"{x} is not None" for x in FORK} and not lab)
+                       for h, lab in cfg.if_guards(r)) for r in rs)
+    # ... and the test is made on the snapshot itself, not on a stand-in that is never None (`self._last_fork or {}`)
+    for nm in FORK - {"self._last_fork"}:
+        for st in statements(f.node):
+            if isinstance(st, ast.Assign):
+                t, v = st.targets[0], st.value
+                pairs = list(zip(t.elts, v.elts)) if isinstance(t, ast.Tuple) and isinstance(v, ast.Tuple) and len(t.elts) == len(v.elts) else [(t, v)]
+                if any(U(a) == nm and isinstance(b, ast.BoolOp) for a, b in pairs) and any(t_ == f"{nm} is None" for t_ in [U(cfg.stmt[h].test) for r in rs for h, _ in cfg.if_guards(r)]):
+                    ok_guard = False
     ctx.check(ok_guard, rid, f, f.node, "revert without snapshot raises", "revert without a snapshot does not raise", construct="guard: self._last_fork is None")
     # partial branch
-    loops = [n for n in cfg.nodes(lambda s: isinstance(s, ast.For) and U(s.iter) == "self._last_fork.items()")]
+    loops = [n for n in cfg.nodes(lambda s: isinstance(s, ast.For) and U(s.iter) in {f"{x}.items()" for x in FORK})]
     if not loops:
         ctx.violation(rid, f, f.node, "partial revert does not iterate over the whole snapshot `self._last_fork.items()`", construct="partial branch")
         return
@@ -265,7 +302,7 @@ def r3_revert_structure(ctx, rid="C02.R3", title="structure of State.revert (ful
                   construct="None handling in partial revert")
     after = [n for n in cfg.nodes(lambda s: isinstance(s, ast.Assign) and U(s.targets[0]) == "self._last_fork" and U(s.value) == "None")
              if cfg.reachable(loops[0], n) and n not in [cfg.node_of(c) for c in clr]]
-    ctx.check(bool(after) and cfg.all_paths_pass(loops[0], after), rid, f, cfg.stmt[after[0]] if after else lp,
+    ctx.check((bool(after) and cfg.all_paths_pass(loops[0], after)) or consumed_first, rid, f, cfg.stmt[after[0]] if after else lp,
               "snapshot cleared after the partial revert", "snapshot not cleared after the partial revert", construct="clear after partial revert")
 
 
@@ -273,7 +310,8 @@ def r4_selection(ctx):
     ctx.rule("C02.R4", "partial revert selects old/current values with the mask (no arithmetic blend)", 1)
     f, cfg, subset, (gh, glab) = _revert_facts(ctx, "C02.R4")
     defs = local_defs(f.node)
-    loops = [s for s in statements(f.node) if isinstance(s, ast.For) and U(s.iter) == "self._last_fork.items()"]
+    FORK, _ = _fork_aliases(f, cfg)
+    loops = [s for s in statements(f.node) if isinstance(s, ast.For) and U(s.iter) in {f"{x}.items()" for x in FORK}]
     if not loops:
         raise AnalysisError("C02.R4", "anchor vanished: loop over self._last_fork.items() in State.revert")
     lp = loops[0]
@@ -567,6 +605,7 @@ VARIANTS = [
     V("full-revert-ind", G, "state.revert(~accepted)", "state.revert()", "C02.R2"),
     V("revert-skipped-sometimes", G, "            if not accepted:\n                state.revert()", "            if not accepted and temperature_inv == 1:\n                state.revert()", "C02.R2"),
     V("full-revert-partial-restore", S, "            self._values.update(self._last_fork)\n", "            self._values[next(iter(self._last_fork))] = next(iter(self._last_fork.values()))\n", "C02.R3"),
+    V("silent-snapshot-through-a-local", S, "        for k, old_v in self._last_fork.items():\n", "        fork = self._last_fork\n        for k, old_v in fork.items():\n", None),
     V("fork-not-cleared", S, "            self._values.update(self._last_fork)\n            self._last_fork = None\n", "            self._values.update(self._last_fork)\n", "C02.R3"),
     V("blend-arithmetic", S, "self._values[k] = torch.where(mask, old_v, cur_v)", "self._values[k] = old_v * mask + cur_v * ~mask", "C02.R4"),
     V("where-swapped", S, "self._values[k] = torch.where(mask, old_v, cur_v)", "self._values[k] = torch.where(mask, cur_v, old_v)", "C02.R4"),
